@@ -807,6 +807,36 @@ def r12_label_table_and_composition_edits(idx, r):
                   msg="the fraction is stored before it is range-checked: a refused call (ValueError) leaves the out-of-range value - or an unknown nuclide - in the composition")
 
 
+def r13_defaults_idempotent(idx, r):
+    """setDefaultMassFracs is also used to RESET a material.  A balance element computed as `1 - sum(self.massFrac.values())` includes the
+    balance left by an earlier call: the second call sets the balance to about zero and the composition no longer sums to one.  The remainder
+    must leave the balance nuclide itself out of the sum (or the method must empty the composition first)."""
+    n = 0
+    for m in idx.modules.values():
+        if not m.name.startswith("armi.materials") or ".tests" in m.name:
+            continue
+        for f in m.all_funcs():
+            if f.name != "setDefaultMassFracs" or f.cls is None:
+                continue
+            cleared = [x for x in walk_local(f.node) if (isinstance(x, ast.Call) and norm(x.func) in ("self.clearMassFrac", "self.massFrac.clear")) or (isinstance(x, ast.Assign) and norm(x) in ("self.massFrac = {}", "self.massFrac = dict()"))]
+            env = single_assign_env(f.node)
+            for c in iter_calls(f.node):
+                if dotted(c.func) == "self.setMassFrac" and len(c.args) == 2:
+                    v = propagate(c.args[1], env)
+                    sums = [x for x in ast.walk(v) if isinstance(x, ast.Call) and dotted(x.func) == "sum" and x.args and "self.massFrac" in norm(x.args[0])]
+                    if not sums:
+                        continue
+                    n += 1
+                    nuc = norm(c.args[0])
+                    excl = any(isinstance(x.args[0], (ast.GeneratorExp, ast.ListComp)) and any(nuc in norm(cond) and "!=" in norm(cond) for g in x.args[0].generators for cond in g.ifs) for x in sums)
+                    first = bool(cleared) and cleared[0].lineno < c.lineno
+                    r.require(excl or first, f"{f.cls.name}.setDefaultMassFracs:balance-independent-of-earlier-calls", f, node=c,
+                              msg=f"`{norm(c)[:80]}` takes the balance from everything the composition holds, the {nuc} of an earlier call included: calling setDefaultMassFracs() again "
+                                  f"(how materials are reset) sets {nuc} to about zero and the fractions sum to well below one")
+    if n < 3:
+        raise AnalysisError(f"only {n} balance-element computations found")
+
+
 def run(idx, chk):
     chk.explanation = (
         "C19: nuclides.dat, elements.dat, burn-chain.yaml and mcc-nuclides.yaml are parsed as data and linted exhaustively (unique (Z,A,S), N=A-Z, "
@@ -838,3 +868,5 @@ def run(idx, chk):
                  necessary="natural abundances of every element sum to one (or zero)")
     chk.run_rule("R19.12", "label table ascending per state block; duplicate() replaces the composition; setMassFrac checks before storing", lambda r: r12_label_table_and_composition_edits(idx, r), floor=4,
                  necessary="every identifier decodes to its (Z, A, state); compositions stay normalised through copies and refused edits")
+    chk.run_rule("R19.13", "a balance element is computed without the balance of an earlier call (setDefaultMassFracs is idempotent)", lambda r: r13_defaults_idempotent(idx, r), floor=3,
+                 necessary="every default composition sums to one however often the defaults are (re-)applied")
